@@ -246,6 +246,7 @@ class ConfigurableMixin:
         if args:
             self._config.update(args[0])
         new = {k: {"value": v} for k, v in self._config.items()}
+        self.sim.record("config_set", dev=self.name, data={f"{self.name}_{k}": v for k, v in self._config.items()})
         return old, new
 
 
@@ -464,6 +465,14 @@ class Signal(_Base, ReadableMixin, SubscribableMixin):
         return {self.name: {"source": f"SIM:{self.name}", "dtype": "number", "shape": []}}
 
 
+class ConfigSignal(Signal, ConfigurableMixin):
+    """A monitorable signal that also has configuration (e.g. an averaging time)."""
+
+    def __init__(self, sim, name, spec, world):
+        super().__init__(sim, name, spec, world)
+        self._config = dict(spec.get("config", {"averaging": 1.0}))
+
+
 class Flyer(_Base, StageableMixin):
     """Old-style flyer: kickoff / complete / collect (EventCollectable)."""
 
@@ -666,6 +675,7 @@ KINDS = {
     "det": Detector,
     "pdet": PausableDetector,
     "signal": Signal,
+    "csignal": ConfigSignal,
     "flyer": Flyer,
     "pageflyer": PageFlyer,
     "streamdet": StreamDetector,
